@@ -1194,10 +1194,8 @@ impl<'t> Gen<'t> {
           } else {
             self.expr(&Ty::Int, cx, d)
           };
-          let b = match (&a.kind, &b.kind) {
-            (EK::Var(x), EK::Var(y)) if x == y && (op == "/" || op == "%") && !self.cfg.same_operand_division => Expr::new(Ty::Int, EK::Int(3)),
-            _ => b,
-          };
+          // same operand on both sides (a variable, a field read, ...): compare the rendered text
+          let b = if (op == "/" || op == "%") && !self.cfg.same_operand_division && format!("{:?}", a.kind) == format!("{:?}", b.kind) { Expr::new(Ty::Int, EK::Int(3)) } else { b };
           self.feat("arith");
           Expr::new(Ty::Int, EK::Binary(op, Box::new(a), Box::new(b)))
         }
